@@ -1,5 +1,129 @@
 import GoRes.Model.Codec
 /-! Helper lemmas for the codec model (C18). -/
 namespace GoRes.Codec
+open GoRes GoRes.Json
+
+/-! ## `copyAt` -/
+
+@[simp] theorem copyAt_nil_src (dst : List Nat) (off : Nat) : copyAt dst off [] = dst := by
+  cases dst <;> cases off <;> simp [copyAt]
+
+@[simp] theorem length_copyAt (dst : List Nat) (off : Nat) (src : List Nat) :
+    (copyAt dst off src).length = dst.length := by
+  induction dst generalizing off src with
+  | nil => cases src <;> simp [copyAt]
+  | cons d dst ih =>
+    cases src with
+    | nil => simp
+    | cons s src =>
+      cases off with
+      | zero => simp [copyAt, ih]
+      | succ off => simp [copyAt, ih]
+
+/-- `copy(dst[len(a):], src)` leaves the first `len(a)` bytes alone -/
+theorem copyAt_append_left (a b src : List Nat) :
+    copyAt (a ++ b) a.length src = a ++ copyAt b 0 src := by
+  induction a with
+  | nil => simp
+  | cons x a ih =>
+    cases src with
+    | nil => simp
+    | cons s src => simp only [List.cons_append, List.length_cons, copyAt, ih]
+
+theorem copyAt_append_left' (a b src : List Nat) (n : Nat) (hn : n = a.length) :
+    copyAt (a ++ b) n src = a ++ copyAt b 0 src := by
+  subst hn; exact copyAt_append_left a b src
+
+/-- `copy(dst, src)` with enough room overwrites the first `len(src)` bytes -/
+theorem copyAt_zero (dst src : List Nat) (h : src.length ≤ dst.length) :
+    copyAt dst 0 src = src ++ dst.drop src.length := by
+  induction src generalizing dst with
+  | nil => simp
+  | cons s src ih =>
+    cases dst with
+    | nil => simp at h
+    | cons d dst =>
+      simp only [List.length_cons, Nat.add_le_add_iff_right] at h
+      simp [copyAt, ih dst h]
+
+theorem set_append_last (xs : List Nat) (y z : Nat) (n : Nat) (hn : n = xs.length) :
+    (xs ++ [y]).set n z = xs ++ [z] := by
+  subst hn
+  induction xs with
+  | nil => rfl
+  | cons x xs ih => simp [ih]
+
+theorem drop_replicate_zero (n m : Nat) : (List.replicate (n + m) 0).drop n = List.replicate m (0:Nat) := by
+  simp
+
+/-! ## `member` -/
+
+theorem member_nil (k : Str) : member [] k = none := rfl
+
+theorem member_none_of_forall_ne (ms : List (Str × J)) (k : Str) (h : ∀ m ∈ ms, m.1 ≠ k) :
+    member ms k = none := by
+  have : ms.filter (·.1 = k) = [] := by
+    rw [List.filter_eq_nil_iff]
+    intro m hm
+    simpa using h m hm
+  simp [member, this]
+
+theorem member_cons_ne (k' k : Str) (v : J) (ms : List (Str × J)) (h : k' ≠ k) :
+    member ((k', v) :: ms) k = member ms k := by
+  simp [member, h]
+
+theorem member_append_of_right_none (a b : List (Str × J)) (k : Str) (h : ∀ m ∈ b, m.1 ≠ k) :
+    member (a ++ b) k = member a k := by
+  have : b.filter (·.1 = k) = [] := by
+    rw [List.filter_eq_nil_iff]
+    intro m hm
+    simpa using h m hm
+  simp [member, List.filter_append, this]
+
+theorem member_append_of_left_none (a b : List (Str × J)) (k : Str) (h : ∀ m ∈ a, m.1 ≠ k) :
+    member (a ++ b) k = member b k := by
+  have : a.filter (·.1 = k) = [] := by
+    rw [List.filter_eq_nil_iff]
+    intro m hm
+    simpa using h m hm
+  simp [member, List.filter_append, this]
+
+theorem member_append_single (a : List (Str × J)) (k : Str) (x : J) :
+    member (a ++ [(k, x)]) k = some x := by
+  simp [member, List.filter_append]
+
+theorem member_single (k : Str) (x : J) : member [(k, x)] k = some x := by
+  simp [member]
+
+theorem member_single_ne (k' k : Str) (x : J) (h : k' ≠ k) : member [(k', x)] k = none := by
+  simp [member, h]
+
+theorem member_cons_eq_of_none (k : Str) (v : J) (ms : List (Str × J)) (h : ∀ m ∈ ms, m.1 ≠ k) :
+    member ((k, v) :: ms) k = some v := by
+  have : ms.filter (·.1 = k) = [] := by
+    rw [List.filter_eq_nil_iff]
+    intro m hm
+    simpa using h m hm
+  simp [member, this]
+
+/-- the wrapped branch of `marshalDataValue` -/
+theorem datavalue_wrapped (enc : Str) :
+    (let o := List.replicate (enc.length + 9) 0
+      let o := copyAt o 0 dataPrefix
+      let o := copyAt o 8 enc
+      o.set (o.length - 1) 125) = dataPrefix ++ enc ++ [125] := by
+  have h1 : copyAt (List.replicate (enc.length + 9) 0) 0 dataPrefix
+      = dataPrefix ++ List.replicate (enc.length + 1) 0 := by
+    rw [copyAt_zero _ _ (by simp [dataPrefix])]
+    simp [dataPrefix]
+  have h2 : copyAt (dataPrefix ++ List.replicate (enc.length + 1) 0) 8 enc
+      = (dataPrefix ++ enc) ++ [0] := by
+    rw [copyAt_append_left' _ _ _ 8 (by simp [dataPrefix]), copyAt_zero _ _ (by simp)]
+    simp [List.drop_replicate]
+  simp only [h1, h2]
+  exact set_append_last _ _ _ _ (by simp [dataPrefix])
+
+theorem meta_ne (metaMember : List (Str × J)) (hm : ∀ m ∈ metaMember, m.1 = b!"meta") (k : Str)
+    (hk : b!"meta" ≠ k) : ∀ m ∈ metaMember, m.1 ≠ k := fun m h => by rw [hm m h]; exact hk
 
 end GoRes.Codec
